@@ -1036,6 +1036,14 @@ fn run_script(n: u64, script: &[serde_json::Value], out: &mut Vec<String>, rep: 
             settle().await;
         }
         absorb_written(&io, &mut pending, &mut known_ids);
+        if io.shutdown_seen() && net_up {
+            // an unbind went out during the wind-down (it was queued behind a stalled write): the peer closes, it does not
+            // answer on a half-closed connection
+            net_up = false;
+            emit("\"ev\":\"SrvClose\",\"how\":\"eof\"".to_string());
+            io.push(Item::Eof);
+            settle().await;
+        }
         if net_up {
             for p in pending.clone() {
                 if p.abandoned {
